@@ -216,6 +216,8 @@ def do_explore(prop, tier, seed, jobs):
     for sig, path, count in reported:
         print('  signature=%s cases=%d' % (sig, count))
         print('VIOLATION property=%s replay=%s' % (prop, path))
+    if reported:
+        return 1          # a reproduced violation stands, whatever else went wrong in the same run
     if harness_errors or unreproduced:
         return 2
     if acc.transitions == 0:
